@@ -106,6 +106,32 @@ func Run(vector []int, body func(c *Ctx)) *Ctx {
 // distinct Ctx values. stop (optional) is polled between executions; when it returns true the
 // remaining subtrees are abandoned and capped is reported.
 func Explore(bound int, workers int, stop func() bool, body func(c *Ctx)) (st Stats, capped bool) {
+	st, capped, div := ExploreDiv(bound, workers, stop, body)
+	if div != "" {
+		panic(div) // a generator that is not a function of its choices is a harness error
+	}
+	return st, capped
+}
+
+// ExploreDiv is Explore for bodies that execute code under test between choice points: when an execution
+// does not reproduce the recorded prefix (it reaches fewer or other choice points than the execution the
+// prefix was taken from) the exploration of that subtree cannot continue; instead of a hard error the
+// divergence is reported (first message) so that the caller can attribute it.
+func ExploreDiv(bound int, workers int, stop func() bool, body func(c *Ctx)) (st Stats, capped bool, diverged string) {
+	var divMsg atomic.Value
+	guard := func(f func()) {
+		defer func() {
+			if x := recover(); x != nil {
+				divMsg.CompareAndSwap(nil, fmt.Sprint(x))
+			}
+		}()
+		f()
+	}
+	defer func() {
+		if m, ok := divMsg.Load().(string); ok {
+			diverged = m
+		}
+	}()
 	var ex, pts, tr atomic.Int64
 	var cap atomic.Bool
 	runOne := func(prefix []int, worker int) *Ctx {
@@ -141,7 +167,11 @@ func Explore(bound int, workers int, stop func() bool, body func(c *Ctx)) (st St
 		}
 	}
 	// root execution, then shard its alternatives
-	root := runOne(nil, 0)
+	var root *Ctx
+	guard(func() { root = runOne(nil, 0) })
+	if root == nil {
+		return Stats{ex.Load(), pts.Load(), tr.Load()}, cap.Load(), ""
+	}
 	type job struct{ prefix []int }
 	var jobs []job
 	for i := 0; i < len(root.choices); i++ {
@@ -167,12 +197,12 @@ func Explore(bound int, workers int, stop func() bool, body func(c *Ctx)) (st St
 				if j >= len(jobs) {
 					return
 				}
-				rec(jobs[j].prefix, w)
+				guard(func() { rec(jobs[j].prefix, w) })
 			}
 		}(w)
 	}
 	wg.Wait()
-	return Stats{ex.Load(), pts.Load(), tr.Load()}, cap.Load()
+	return Stats{ex.Load(), pts.Load(), tr.Load()}, cap.Load(), ""
 }
 
 // Count returns the closed-form number of executions for a generator whose every execution
